@@ -83,6 +83,13 @@ class C04(Engine):
             root[f"d{j}"] = {nm: "@" + fid}
             paths.append(f"{prefix}d{j}/{nm}")
         op = {"op": "cli", "argv": [], "cwd": "."}
+        if mode == "explicit" and paths and rng.random() < 0.2:
+            # the same source mentioned again, possibly under another spelling, anywhere in the list
+            j = rng.randrange(len(paths))
+            dup = paths[j] if rng.random() < 0.6 else "./" + paths[j]
+            k = rng.randrange(len(paths) + 1)
+            paths.insert(k, dup)
+            fids.insert(k, fids[j] if len(fids) == len(paths) - 1 else fids[min(j, len(fids) - 1)])
         if mode == "explicit":
             op["argv"] = list(paths)
         elif mode == "dir":
